@@ -430,6 +430,69 @@ def overrides_to_file(cases, path):
     return len(evs)
 
 
+def direct_event(cd, id_):
+    """Events too large for TLC (tables of 65 535 / 65 536 entries): the clauses of C03 are decided here, by code that
+    shares nothing with the library: dis + PyCode_Addr2Line read the produced code object and every instruction of
+    the DATA (flattened blocks) must be found again - same opcode, operand resolving to the given name / constant /
+    local, jump landing on the first instruction of the given block, given line at the prefix and the opcode unit."""
+    from code_data import Cellvar, Constant, Freevar, Jump, Name, Varname
+
+    e = {"id": id_, "ver": VER, "kind": "direct", "ok0": False, "timeout": False, "readable": False, "operands": False,
+         "jumps": False, "lines": False, "count": False, "n": sum(len(b) for b in cd.blocks)}
+    drain_relax()
+    try:
+        code = guarded(cd.to_code)
+        e["ok0"] = True
+    except _Timeout:
+        e["timeout"] = True
+        return e
+    except BaseException:  # noqa
+        return e
+    finally:
+        drain_relax()
+    try:
+        ins = [i for i in D.dis.get_instructions(code)]
+        e["readable"] = True
+    except BaseException:  # noqa
+        return e
+    real = []
+    start = None
+    for i in ins:
+        if start is None:
+            start = i.offset
+        if i.opcode != D.EXT:
+            real.append((start, i))
+            start = None
+    flat = [x for b in cd.blocks for x in b]
+    e["count"] = len(flat) == len(real)
+    if not e["count"]:
+        return e
+    bstart = []
+    k = 0
+    for b in cd.blocks:
+        bstart.append(k)
+        k += len(b)
+    ops = jumps = lines = True
+    for (st, i), x in zip(real, flat):
+        a = x.arg
+        if i.opname != x.name:
+            ops = False
+        if isinstance(a, (Name, Varname, Cellvar, Freevar)):
+            want = getattr(a, type(a).__name__.lower())
+            ops = ops and i.argval == want
+        elif isinstance(a, Constant):
+            ops = ops and type(i.argval) is type(a.constant) and i.argval == a.constant
+        elif isinstance(a, Jump):
+            jumps = jumps and a.target < len(bstart) and i.argval == real[bstart[a.target]][0]
+        elif isinstance(a, int):
+            ops = ops and i.arg == a
+        for off in (st, i.offset):
+            ln = cpy.addr2line(code, off)
+            lines = lines and ln == x.line_number
+    e["operands"], e["jumps"], e["lines"] = ops, jumps, lines
+    return e
+
+
 def lineprogs_to_file(cases, path, first=10):
     """MC_Lines line programs as hand-built data: every run is `units` one-unit instructions that
     carry the run's line (None where the model says "no line"); the encoder must synthesise a line
@@ -499,6 +562,9 @@ def bigtables_to_file(cases, path):
         b2 = (Instruction("LOAD_CONST", Constant(None), line_number=3), Instruction("RETURN_VALUE", line_number=3))
         cd = CodeData(blocks=(b0, b1, b2), filename="<big>", first_line_number=1, name="big", stacksize=n + 1,
                       type=Function(Args()) if kind == "locals" else None)
+        if c.get("direct"):
+            evs.append(direct_event(cd, c["id"]))
+            continue
         ev, _ = encode_event(cd, c["id"], "hand")
         evs.append(ev)
     _dump(evs, path)
